@@ -4,6 +4,8 @@ import (
 	"fmt"
 	"go/token"
 	"go/types"
+	"regexp"
+	"strings"
 
 	"gedverif/internal/load"
 	"gedverif/internal/su"
@@ -297,62 +299,225 @@ func stridedWorkerIndex(fnName string) func(p *load.Prog) (bool, string) {
 	}
 }
 
-// surnameFirstByte: lowerName[0] in surnameStartsWith: the lowered string is
-// strings.ToLower of a value that is replaced by a non-empty constant when empty.
-func surnameFirstByte(p *load.Prog) (bool, string) {
-	fn := p.Func(load.PkgHTML, "surnameStartsWith")
-	if fn == nil {
-		return false, "surnameStartsWith not found"
+// monthNameGroup: parts[monthPos] in parseMonthName. Every caller passes the
+// submatch of a constant pattern and a constant group number the pattern has;
+// the function leaves before the index when the submatch is empty (no match).
+func monthNameGroup(p *load.Prog) (bool, string) {
+	fn := p.Func(load.PkgRoot, "parseMonthName")
+	if fn == nil || len(fn.Params) != 2 {
+		return false, "parseMonthName(parts, monthPos) not found"
 	}
-	n := 0
+	// the emptiness exit dominates the index
+	guarded := false
 	for _, b := range fn.Blocks {
 		for _, ins := range b.Instrs {
-			ix, ok := ins.(*ssa.Index)
-			if !ok {
+			ia, ok := ins.(*ssa.IndexAddr)
+			if !ok || ia.X != ssa.Value(fn.Params[0]) {
 				continue
 			}
-			n++
-			c, ok := ix.X.(*ssa.Call)
-			if !ok || !su.CalleeIs(&c.Call, "strings", "ToLower") {
-				return false, "the indexed string is not strings.ToLower(name)"
-			}
-			ph, ok := c.Call.Args[0].(*ssa.Phi)
-			if !ok {
-				return false, "the name is not replaced when it is empty"
-			}
-			for i, e := range ph.Edges {
-				if s, isK := su.ConstString(e); isK {
-					if s == "" {
-						return false, "the replacement for an empty name is itself empty"
-					}
+			for _, d := range fn.Blocks {
+				iff, ok := d.Instrs[len(d.Instrs)-1].(*ssa.If)
+				if !ok {
 					continue
 				}
-				// the edge must come from the side on which e != ""
-				pred := ph.Block().Preds[i]
-				iff, isIf := pred.Instrs[len(pred.Instrs)-1].(*ssa.If)
-				if !isIf {
-					return false, "the name reaches the index without an emptiness test"
+				bo, ok := iff.Cond.(*ssa.BinOp)
+				if !ok || bo.Op != token.EQL {
+					continue
 				}
-				bo, isBo := iff.Cond.(*ssa.BinOp)
-				if !isBo || bo.X != e {
-					return false, "the name reaches the index without an emptiness test"
+				if of, ok := lenArg(bo.X); !ok || of != ssa.Value(fn.Params[0]) {
+					continue
 				}
-				k, isK := su.ConstString(bo.Y)
-				if !isK || k != "" {
-					return false, "the name is not compared with the empty string"
+				if k, isK := su.ConstInt(bo.Y); !isK || k != 0 {
+					continue
 				}
-				side := 1 // name == "" : false side keeps the name
-				if bo.Op == token.NEQ {
-					side = 0
-				}
-				if pred.Succs[side] != ph.Block() {
-					return false, "the empty name reaches the index"
+				if len(d.Succs[1].Preds) == 1 && d.Succs[1].Dominates(b) {
+					guarded = true
 				}
 			}
 		}
 	}
+	if !guarded {
+		return false, "parseMonthName no longer leaves before the index when the submatch is empty"
+	}
+	n := 0
+	for _, caller := range p.Repo {
+		for _, c := range su.CallsTo(caller, fn) {
+			n++
+			k, isK := su.ConstInt(c.Call.Args[1])
+			if !isK || k < 0 {
+				return false, "parseMonthName is called with a computed group number in " + load.FuncName(caller)
+			}
+			pat, _, sub, err := regexpUsedIn(p, caller, "FindStringSubmatch")
+			if err != nil || ssa.Value(sub) != c.Call.Args[0] {
+				return false, "parseMonthName is not called with the submatch of a constant pattern in " + load.FuncName(caller)
+			}
+			re, err := regexp.Compile(pat)
+			if err != nil {
+				return false, "pattern does not compile"
+			}
+			if int(k) > re.NumSubexp() {
+				return false, fmt.Sprintf("parseMonthName is asked for group %d but the date pattern has %d groups", k, re.NumSubexp())
+			}
+		}
+	}
 	if n == 0 {
-		return false, "no index found in surnameStartsWith"
+		return false, "parseMonthName has no callers"
+	}
+	return true, ""
+}
+
+// monthAbbreviation: date.Month.String()[:3] - the sliced value is the result of
+// time.Month.String (at least three bytes for every value) and at most three bytes are taken.
+func monthAbbreviation(p *load.Prog) (bool, string) {
+	fn := p.Method(load.PkgRoot, "Date", "String")
+	if fn == nil {
+		return false, "Date.String not found"
+	}
+	n := 0
+	for _, b := range fn.Blocks {
+		for _, ins := range b.Instrs {
+			sl, ok := ins.(*ssa.Slice)
+			if !ok {
+				continue
+			}
+			if bt, isB := sl.X.Type().Underlying().(*types.Basic); !isB || bt.Info()&types.IsString == 0 {
+				continue // the backing array of a variadic call
+			}
+			n++
+			c, ok := sl.X.(*ssa.Call)
+			cal := (*ssa.Function)(nil)
+			if ok {
+				cal = c.Call.StaticCallee()
+			}
+			if cal == nil || cal.Pkg == nil || cal.Pkg.Pkg.Path() != "time" || cal.Name() != "String" || cal.Signature.Recv() == nil || !strings.HasSuffix(cal.Signature.Recv().Type().String(), "time.Month") {
+				return false, "the abbreviated value is not the result of time.Month.String()"
+			}
+			hi, isK := int64(0), false
+			if sl.High != nil {
+				hi, isK = su.ConstInt(sl.High)
+			}
+			lo := int64(0)
+			if sl.Low != nil {
+				l, ok := su.ConstInt(sl.Low)
+				if !ok {
+					return false, "computed lower bound"
+				}
+				lo = l
+			}
+			if !isK || hi > 3 || lo > hi {
+				return false, fmt.Sprintf("the month name is cut at [%d:%d]: the shortest names time.Month.String can return (\"May\") have three bytes", lo, hi)
+			}
+		}
+	}
+	if n == 0 {
+		return false, "no slice in Date.String"
+	}
+	return true, ""
+}
+
+// splitFirst: strings.Split(words, sep)[0] with a non-empty constant separator never yields an empty slice.
+func splitFirst(p *load.Prog) (bool, string) {
+	fn := p.Method(load.PkgRoot, "DateConstraint", "String")
+	if fn == nil {
+		return false, "DateConstraint.String not found"
+	}
+	n := 0
+	for _, b := range fn.Blocks {
+		for _, ins := range b.Instrs {
+			ia, ok := ins.(*ssa.IndexAddr)
+			if !ok {
+				continue
+			}
+			n++
+			c, ok := ia.X.(*ssa.Call)
+			if !ok || !su.CalleeIs(&c.Call, "strings", "Split") {
+				return false, "the indexed value is not the result of strings.Split"
+			}
+			sep, isK := su.ConstString(c.Call.Args[1])
+			if !isK || sep == "" {
+				return false, "strings.Split is called with an empty or computed separator (an empty separator splits \"\" into zero pieces)"
+			}
+			if k, isK := su.ConstInt(ia.Index); !isK || k != 0 {
+				return false, "an element other than the first is taken"
+			}
+		}
+	}
+	if n == 0 {
+		return false, "no index in DateConstraint.String"
+	}
+	return true, ""
+}
+
+// goSyntaxPrefix: s[25:len(s)-1] of fmt.Sprintf("%#v", options): the Go-syntax form of a struct value
+// starts with "<package>.<Type>{" and ends with "}"; the lower bound must not exceed that prefix.
+func goSyntaxPrefix(p *load.Prog) (bool, string) {
+	fn := p.Method(load.PkgRoot, "SimilarityOptions", "String")
+	if fn == nil {
+		return false, "SimilarityOptions.String not found"
+	}
+	n := 0
+	for _, b := range fn.Blocks {
+		for _, ins := range b.Instrs {
+			sl, ok := ins.(*ssa.Slice)
+			if !ok {
+				continue
+			}
+			if bt, isB := sl.X.Type().Underlying().(*types.Basic); !isB || bt.Info()&types.IsString == 0 {
+				continue // the backing array of a variadic call
+			}
+			n++
+			c, ok := sl.X.(*ssa.Call)
+			if !ok || !su.CalleeIs(&c.Call, "fmt", "Sprintf") {
+				return false, "the sliced value is not the result of fmt.Sprintf"
+			}
+			if f, isK := su.ConstString(c.Call.Args[0]); !isK || f != "%#v" {
+				return false, "the format is not %#v"
+			}
+			elems, ok := variadicElems(c.Call.Args[1])
+			if !ok || len(elems) != 1 {
+				return false, "cannot read the argument of Sprintf"
+			}
+			mi, ok := elems[0].(*ssa.MakeInterface)
+			if !ok {
+				return false, "cannot read the argument of Sprintf"
+			}
+			named := load.NamedOf(mi.X.Type())
+			if named == nil {
+				return false, "the printed value is not of a named struct type"
+			}
+			if _, isStruct := named.Underlying().(*types.Struct); !isStruct {
+				return false, "the printed value is not a struct"
+			}
+			if _, isPtr := mi.X.Type().(*types.Pointer); isPtr {
+				return false, "the printed value is a pointer (its Go-syntax form starts with &)"
+			}
+			prefix := named.Obj().Pkg().Name() + "." + named.Obj().Name() + "{"
+			lo, isK := int64(0), true
+			if sl.Low != nil {
+				lo, isK = su.ConstInt(sl.Low)
+			}
+			if !isK || lo > int64(len(prefix))+1 {
+				return false, fmt.Sprintf("the slice starts at %d but the Go-syntax form of an empty %s is only %d bytes long", lo, prefix+"}", len(prefix)+1)
+			}
+			// upper bound len(s)-1 of the same string
+			bo, ok := sl.High.(*ssa.BinOp)
+			if !ok || bo.Op != token.SUB {
+				return false, "the slice does not end at len(s)-1"
+			}
+			if of, ok := lenArg(bo.X); !ok || of != sl.X {
+				return false, "the slice does not end at len(s)-1 of the same string"
+			}
+			if k, isK := su.ConstInt(bo.Y); !isK || k != 1 {
+				return false, "the slice does not end at len(s)-1"
+			}
+			// low <= high needs len(s)-1 >= lo: the form has at least len(prefix)+1 bytes
+			if lo > int64(len(prefix)) {
+				return false, fmt.Sprintf("the slice starts at %d, after the %d-byte prefix %q: for a struct without fields the bounds cross", lo, len(prefix), prefix)
+			}
+		}
+	}
+	if n == 0 {
+		return false, "no slice in SimilarityOptions.String"
 	}
 	return true, ""
 }
